@@ -21,11 +21,12 @@ fn write_all(text: &[u8]) -> Outcome<Vec<u8>> {
     let t = text.to_vec();
     guarded(move || {
         let c = Corpus::from_reader(&t[..])?;
-        let mut out = vec![];
+        // the sink takes the bytes in pieces of at most `cap` bytes (legal for std::io::Write)
+        let mut out = Chunked { data: vec![], cap: 1 + t.len() % 4093 };
         for e in c.iter() {
             e.write(&mut out)?;
         }
-        Ok::<_, vibrato::errors::VibratoError>(out)
+        Ok::<_, vibrato::errors::VibratoError>(out.data)
     })
 }
 
@@ -49,6 +50,11 @@ fn gen_corpus(rng: &mut Rng) -> String {
         }
         s.push_str("EOS");
         s.push_str(nl);
+    }
+    // 1 corpus in 25: a token whose surface or feature is longer than a BufWriter's buffer (8 KiB)
+    if rng.chance(1, 25) {
+        let long: String = (0..9000).map(|i| ["a", "東", "b"][i % 3]).collect();
+        if rng.chance(1, 2) { s.push_str(&format!("{}\tf{}a\tg{}EOS{}", long, nl, nl, nl)); } else { s.push_str(&format!("a\t{}{}EOS{}", long, nl, nl)); }
     }
     // malformed stream and edge cases
     match rng.below(12) {
